@@ -225,16 +225,20 @@ Section Eval.
       let '(r, a') := resolve_ref root a p sep in
       match r with
       | RFound v => Ok (Some v, a')
-      | RCritical e pth => mkerr a' e pth
       | RStop Panic => Panic
       | RStop _ => OutOfModel
-      | RNone | RMissing | RCyclic =>
+      | RNone | RMissing | RCyclic | RCritical _ _ =>
+        (* not found in any tree - not set, cyclic, or the path runs into a value that is no
+           object: the resolvers are asked (fix F59) *)
         match resolve_env o (path_str p sep) with
         | Some (s, _) =>
           let a' := match r with RCyclic => act_mark a' | _ => a' end in
           if String.eqb s "" then Ok (None, a')
           else Ok (Some {| l_root := root; l_path := path_str p sep; l_val := VStr s |}, a')
-        | None => match r with RCyclic => mkerr a' ECyclic "" | _ => mkerr a' EMissing "!raw" end
+        | None => match r with
+                  | RCyclic => mkerr a' ECyclic ""
+                  | RCritical e pth => mkerr a' e pth
+                  | _ => mkerr a' EMissing "!raw" end
         end
       end.
 
@@ -329,15 +333,17 @@ Section Eval.
         let '(r, a') := resolve_ref root a p sep in
         match r with
         | RFound v => Ok (v, a')
-        | RCritical e pth => mkerr a' e pth
         | RStop Panic => Panic
         | RStop _ => OutOfModel
-        | RNone | RMissing | RCyclic =>
+        | RNone | RMissing | RCyclic | RCritical _ _ =>
           match resolve_env o (path_str p sep) with
           | Some (s, pc) =>
             v <- with_mark a' (parse_value o root dp s pc) ;;
             Ok (v, match r with RCyclic => act_mark a' | _ => a' end)
-          | None => match r with RCyclic => mkerr a' ECyclic "" | _ => mkerr a' EMissing "!raw" end
+          | None => match r with
+                    | RCyclic => mkerr a' ECyclic ""
+                    | RCritical e pth => mkerr a' e pth
+                    | _ => mkerr a' EMissing "!raw" end
           end
         end
       | VSplice e =>
